@@ -134,6 +134,17 @@ def make_script(sc: dict, i: int):
                 # this simulator (agent) sets data for an entity of the connection's source
                 payload = {f"S{i}.{c['deid']}": {f"S{c['src']}.{c['seid']}": {ATTRS[rr % 2]: (None if (rr >> 4) % 5 == 0 else token(i, n, 0, 0) + 500000)}}}
                 asyncs.append(("set_data", c["src"], payload))
+        for c in agents_of:
+            # the agent asks the controller for data: any mix of connected (cached) and unconnected attributes of its entities
+            rg = h(seed, i, t, k, "gd", c["src"], c["seid"], c["sattr"])
+            if not sc.get("no_async_get") and rg % 3 == 0:
+                req = {}
+                for e in (0, 1):
+                    for a in (2, 3):
+                        if (rg >> (4 + 2 * e + (a - 2))) & 1:
+                            req.setdefault(f"S{c['src']}.{e}", []).append(ATTRS[a])
+                if req:
+                    asyncs.append(("get_data", c["src"], req))
         for req in sc.get("extra_async", []):
             if req["sim"] == i and req["n"] == n:
                 if req["kind"] == "set_data":
@@ -345,7 +356,25 @@ def async_lines(ev):
         return [f"act getdata {ev[1][1:]} {ev[2]}"]
     if ev[0] == "set_event":
         return [f"act setevent {ev[1][1:]} {ev[2]}"]
+    if ev[0] == "get_data_res":
+        # the data path of an accepted get_data: requested ports, the other simulator's answer to the forwarded part
+        _, sid, target, req, _res, fwd = ev
+        ports = [(int(full.split(".", 1)[1]), ATTRS.index(a)) for full, attrs in req.items() for a in attrs]
+        direct = [(int(eid), ATTRS.index(a), v) for _outs, d in fwd for eid, vals in d.items() if eid != "time" for a, v in vals.items()]
+        return [f"aget {sid[1:]} {target} {len(ports)}" + "".join(f" {e} {a}" for e, a in ports) +
+                f" {len(direct)}" + "".join(f" {e} {a} {s_val(v)}" for e, a, v in direct)]
     return []
+
+
+def async_expect(ev):
+    """What the implementation showed for the lines of `async_lines(ev)` (None = nothing to compare)."""
+    if ev[0] == "get_data_res":
+        _, sid, target, req, res, fwd = ev
+        missing = sorted({(int(eid), ATTRS.index(a)) for outs, _d in fwd for eid, attrs in outs.items() for a in attrs})
+        answer = sorted((int(full.split(".", 1)[1]), ATTRS.index(a), v) for full, vals in res.items() for a, v in vals.items())
+        return ["aget: missing [" + " ".join(f"{e}.{a}" for e, a in missing) + "] answer [" +
+                " ".join(f"{e}.{a}={'None' if v is None else v}" for e, a, v in answer) + "]"]
+    return [None] * len(async_lines(ev))
 
 
 def build_lines(sc):
@@ -468,6 +497,7 @@ def compare(driver, sc: dict, sched_seed: int):
         if action[0] == "reply":
             # asynchronous requests the simulator made after the release come first in the block
             pre = [l for e in events for l in async_lines(e)]
+            pre_want = [w for e in events for w in async_expect(e)]
             refused = status.startswith("failed ScenarioError async-refused") or status.startswith("failed SimulationError event-not-rt")
             for j, l in enumerate(pre):
                 lines.append(l)
@@ -483,7 +513,7 @@ def compare(driver, sc: dict, sched_seed: int):
                         events = list(events)
                         events.remove(e)
                 else:
-                    impl_obs.append(None)
+                    impl_obs.append(pre_want[j])
             if refused and pre:
                 continue
             lines.extend(reply_lines(action))
@@ -513,6 +543,11 @@ def compare(driver, sc: dict, sched_seed: int):
         return False, {"impl": "built", "model": answers[:nbuild], "phase": "build"}, c
     for j, (want, got) in enumerate(zip(impl_obs, model_obs)):
         if want is None:
+            continue
+        if want.startswith("aget: "):
+            if got != want[6:]:
+                return False, {"phase": "async get_data", "index": j, "request": lines[nbuild + j], "impl": want[6:], "model": got,
+                               "prefix": lines[nbuild:nbuild + j]}, c
             continue
         cm, ci = canon_model(got), canon_impl(want)
         if legacy:
@@ -1056,6 +1091,12 @@ def run_sched_suite(driver, rng: random.Random, n_scenarios: int, n_schedules: i
             traces += 1
             for ft in set(features(sc, str(outcome))):
                 hist[ft] += 1
+            for e in c.full_trace:
+                if e[0] == "get_data_res":
+                    # data path of async get_data: answered from the cache / forwarded to the other simulator / both in one request
+                    cached = sum(len(v) for v in e[4].values()) > sum(len(v) for _o, d in e[5] for k2, v in d.items() if k2 != "time")
+                    hist["async get_data:" + ("mixed cache+forwarded" if cached and e[5] else "cache only" if cached else
+                                              "forwarded only" if e[5] else "empty answer")] += 1
             if d7:
                 hist["class:D7-reentrant-paths"] += 1
             if sc.pop("_flat_hyp", False):
